@@ -496,10 +496,59 @@ impl<'a> RunGen<'a> {
         RunDesc { idx, conns, actions, hash_seed: rng.next_u64() | 1 }
     }
 
+    /// Several clients send the very same request at the very same time, and
+    /// some of them go away while it is being worked on (shared or coalesced
+    /// work must not hand one client another one's failure or answer).
+    fn gen_twins(&self, rng: &mut Rng, idx: u64) -> RunDesc {
+        let mask = GenMask(GenMask::swarm(rng).0 & !gen::G_FILE);
+        let mut bodies = vec![];
+        let body = self.gen_body(rng, mask, &mut bodies).into_bytes();
+        let k = rng.urange(2, 4);
+        let post = |b: Vec<u8>| ReqSpec { method: "POST".into(), path: "/".into(), version: "1.1".into(), headers: vec![], body: BodySpec::Bytes(b), framing: Framing::ContentLength, raw: None };
+        let mut conns = vec![];
+        for i in 0..k {
+            let mut reqs = vec![post(body.clone())];
+            if i == k - 1 && rng.chance(1, 2) {
+                // a different request right behind, on the same connection
+                reqs.push(post(self.gen_body(rng, mask, &mut bodies).into_bytes()));
+            }
+            conns.push(reqs);
+        }
+        let mut actions = vec![];
+        for c in 0..k {
+            actions.push(Action::Open(c));
+        }
+        // who goes away: at least one stays
+        let leavers: Vec<usize> = (0..k - 1).filter(|_| rng.chance(2, 3)).collect();
+        for c in 0..k {
+            if !leavers.contains(&c) {
+                actions.push(Action::DrainAll(c));
+            }
+        }
+        actions.push(Action::Hold);
+        for (c, reqs) in conns.iter().enumerate() {
+            let total: usize = reqs.iter().map(|r| r.to_bytes().len()).sum();
+            actions.push(Action::Deliver(c, total));
+        }
+        actions.push(Action::Release);
+        for c in &leavers {
+            actions.push(match rng.below(3) {
+                0 => Action::Close(*c),
+                1 => Action::Reset(*c),
+                _ => Action::HalfClose(*c),
+            });
+        }
+        actions.push(Action::Probe);
+        RunDesc { idx, conns, actions, hash_seed: rng.next_u64() | 1 }
+    }
+
     pub fn gen_run(&self, seed: u64, idx: u64) -> RunDesc {
         let mut rng = Rng::new(simcommon::mix(seed, "c20-run", idx));
         if rng.chance(1, 12) {
             return self.gen_soak(&mut rng, idx);
+        }
+        if rng.chance(1, 12) {
+            return self.gen_twins(&mut rng, idx);
         }
         let mask = GenMask(GenMask::swarm(&mut rng).0 & !gen::G_FILE);
         let n_conns = match rng.below(20) {
